@@ -220,6 +220,27 @@ def judge(ctx, c, case):
             ctx.violation("setter-with-reported-format-changes-rendering",
                           {"stage": stage, "fmt": sfmt_after, "before": base[:300], "after": r3[:300]}, case)
             return
+        # (2b) a format the table cannot take is refused and changes nothing
+        try:
+            t.fmt = "no_such_field:3,,"
+            ctx.violation("format-with-unknown-field-accepted", {"stage": stage}, case)
+            return
+        except ValueError:
+            ctx.count("invalid_formats_refused")
+            try:
+                r5 = T.render(t)
+            except Exception as err:
+                ctx.violation("table-raises", {"stage": stage, "type": type(err).__name__, "msg": str(err)[:200],
+                                               "after": "a refused format"}, case)
+                return
+            if r5 != base or str(t.fmt) != str(t.fmt):
+                ctx.violation("refused-format-changes-rendering", {"stage": stage, "before": base[:300],
+                                                                   "after": r5[:300]}, case)
+                return
+        except Exception as err:
+            ctx.violation("table-operation-raises", {"stage": stage, "type": type(err).__name__,
+                                                     "msg": str(err)[:200], "fmt": "no_such_field:3,,"}, case)
+            return
         # (3) no-op formats
         for noop in ("", ";", ";;"):
             try:
